@@ -226,7 +226,12 @@ def main(argv=None):
             if res == 'unsat':
                 checker_problems.append("vacuous: %s" % n)
     if expected is not None and not a.only:
-        missing = [n for n in expected if n not in obligations]
+        # names that exist on every run of a verified function: post-conditions, loop invariants, lemma steps.  (Frame, lock,
+        # raise and call-site obligations exist only when the corresponding path is explored, which pruning may decide
+        # differently from run to run - they are compared when present, not required to be present.)
+        def stable(n_):
+            return bool(re.search(r':(ensures\[\d+\]|loop\[\d+\]:(establish|preserve)\[\d+\])$', n_)) or ':lemma:' in n_
+        missing = [n for n in expected if n not in obligations and stable(n)]
         # an obligation name that disappeared: the function changed shape (or could not be executed): undecided
         if missing and not (crashed or outside):
             checker_problems.append("obligations missing w.r.t. baseline: %s" % ", ".join(missing[:5]))
